@@ -117,6 +117,11 @@ def plans(prop, tier):
                 for e in ('unreb', 'unreb2', 'badret', 'ret'):
                     P.append((k, False, e, 0, (), None, 'alive'))      # death observed through is_alive() only (no wait())
             P.append((k, True, 'ret', 2, ('pause',)))
+        # a first terminate(timeout=0) followed at once by a second one: two exceptions, the second lands wherever the child is
+        P.append(('thread', False, 'exc', 0, ('pause',), None, 'double'))
+        if tier == 'thorough':
+            P.append(('process', False, 'exc', 0, ('pause',), None, 'double'))
+            P.append(('remote', False, 'ret', 0, ('pause',), None, 'double'))
         for k in ('process', 'remote'):
             P.append((k, False, 'ret', 0, ('sigkill', 'sigterm')))
             P.append((k, False, 'big', 0, ()))
@@ -195,6 +200,8 @@ def run(prop, tier, replay=None):
         for bc in base_cases:
             if bc['observe'] == 'slowfin':
                 bc['observe'] = None
+            if bc['observe'] == 'double':
+                bc['observe'] = None
             if bc['observe'] == 'slowarg':
                 bc.update(observe=None, slowarg=True)
             if bc['observe'] == 'restart':
@@ -219,6 +226,8 @@ def run(prop, tier, replay=None):
                 extra = {}
                 if f == 'term_after_finish':
                     pts = [0]
+                if obsmode == 'double':
+                    extra = {'double': True}
                 if obsmode == 'slowarg':
                     extra = {'slowarg': True}
                     pts = [i for i, ev_ in enumerate(events, 1) if ev_[0] == 'targets.py' and ev_[1] == '__setstate__']
